@@ -15,7 +15,7 @@ def run(ctx):
             if fs != "default":
                 r.rule += "@" + fs
         out += res
-    out.append(E.normaliser_rule(ctx.syn, "C06", rule="C06.R6"))
+    out.append(E.normaliser_rule(ctx.syn, "C06", rule="C06.R6", crate=ctx.mir("default")["ts_rs"]))
     from rules import templates as T
     out.append(T.generics_rule(ctx.syn, "C06", rule="C06.R8"))
     return out
